@@ -2,7 +2,10 @@
 
 member spec: (fit type, cost id, model key, n points, valuation, [source kinds])
 operations: ('m', op) on the multi-fit, ('f<i>', op) on member i, with op as in FitWorld
-            ('shared', kind, name, [member indices])   shared source through MultiFit.add_error / add_matrix_error
+            ('shared', kind, name, [member indices][, 'explicit'])   shared source through MultiFit.add_error / add_matrix_error;
+                                       the axis argument is omitted if all sharing members are single-axis fits unless 'explicit'
+            ('m', ('fit', 'asym'))     do_fit(asymmetric_parameter_errors=True)
+            ('m', ('query', how))      ask the multi-fit for asymmetric uncertainties: 'prop' property, 'report', 'result' dictionary
 """
 import collections
 import warnings
@@ -23,6 +26,11 @@ POOL = collections.OrderedDict(
         ("xy_ab_relm", ("xy", "chi2", "m_ab", 4, 2, ["y-abs", "y-rel-model", "y-abs-model"])),
         ("hist", ("hist", "nll", "normal", 5, 0, [])),
         ("unbinned", ("unbinned", "nll", "normal", 5, 0, [])),
+        # single-axis chi2 members (a shared source on them is declared without the axis argument): a second indexed member of
+        # size 4, and a chi2 histogram fit with an indexed member of its size (5 bins)
+        ("idx_ad_b", ("indexed", "chi2", "idx_ad", 4, 0, ["y-abs-rho"])),
+        ("hist_chi2", ("hist", "chi2", "normal", 5, 1, ["y-abs"])),
+        ("idx_ad5", ("indexed", "chi2", "idx_ad", 5, 2, ["y-abs"])),
     ]
 )
 
@@ -71,13 +79,13 @@ class MultiWorld(object):
         with warnings.catch_warnings():
             warnings.simplefilter("ignore")
             if tgt == "shared":
-                _, kind, name, idxs = op
+                _, kind, name, idxs = op[:4]
                 axis, form, rel, refc, payload, rho = ref.KINDS[kind]
                 val = self.members[idxs[0]].val
                 meth, kw = ref.kind_call(kind, val)
                 kw.pop("reference")
                 ax = kw.pop("axis")
-                if all(self.members[i].ftype != "xy" for i in idxs):
+                if all(self.members[i].ftype != "xy" for i in idxs) and (len(op) < 5 or op[4] != "explicit"):
                     ax = None
                 getattr(self.multi, meth)(fits=list(idxs), axis=ax, name=name, reference="data", **kw)
                 self.shared.append((kind, name, list(idxs)))
@@ -115,10 +123,24 @@ class MultiWorld(object):
                         f.add_matrix_parameter_constraint(names=s["names"], values=s["values"], matrix=s["matrix"], matrix_type=s["matrix_type"], uncertainties=s.get("uncertainties"), relative=s["relative"])
                     self.cons.append(o[1])
                 elif k == "fit":
-                    f.do_fit()
+                    if len(o) > 1 and o[1] == "asym":
+                        f.do_fit(asymmetric_parameter_errors=True)
+                    else:
+                        f.do_fit()
                     self.fitted = True
                     for p, v in zip(self.par_names, f.parameter_values):
                         self.pv[p] = float(v)
+                elif k == "query":
+                    if o[1] == "prop":
+                        f.asymmetric_parameter_errors
+                    elif o[1] == "report":
+                        import io
+
+                        f.report(output_stream=io.StringIO(), asymmetric_parameter_errors=True)
+                    elif o[1] == "result":
+                        f.get_result_dict(asymmetric_parameter_errors=True)
+                    else:
+                        raise ValueError(op)
                 else:
                     raise ValueError(op)
             else:
@@ -139,7 +161,7 @@ class MultiWorld(object):
         return sum(ref.constraint_cost(self.con_specs[c], self.pv) for c in self.cons)
 
     def chi2_members(self):
-        return [i for i, w in enumerate(self.members) if w.ftype in ("xy", "indexed") ]
+        return [i for i, w in enumerate(self.members) if w.ftype in ("xy", "indexed") or (w.ftype == "hist" and ref.cost_family(w.cost_id)[0] == "chi2")]
 
     def ref_joint(self):
         """dense joint covariance / data / model of the chi2 members, shared sources in all blocks between sharers"""
